@@ -8,12 +8,18 @@
     (fields, structs, the three list forms, descriptor strings; Proofs/EncodeTotal.v): encoding a well-typed
     value -- any f32/f64 including NaN and infinities, any integer of the field's Rust type, lists up to
     their capacity, any text -- never panics, neither does build_message, and the frame carries the message's
-    own number.  Not proved here: the same for the MSM, SSR code-bias, 1230 and 1029 encoders (index
-    arithmetic, sorting) -- covered by the ENCODE correspondence in the two build profiles and the probes. *)
+    own number.  For the other 53 layouts (plain header fields followed by an MSM data segment, an SSR
+    code-bias list, the 1230 list or the 1029 text; Proofs/MsmTotal.v, Proofs/EncodeTotalAll.v) the same
+    no-panic theorem holds: [C09_encode_no_panic] and [C09_build_total] cover every message of the table --
+    any satellite and signal identifiers, duplicates, inconsistent sets, any order, up to the containers'
+    capacities.  The model marks every arithmetic overflow, out-of-range index, over-wide shift and push beyond
+    capacity as Panic, i.e. it is the overflow-checks profile; that the optimised profile agrees is the
+    ENCODE correspondence in the two build profiles.  Not proved: that the frame carries the message's own
+    number for the 53 non-plain layouts (probes). *)
 From Coq Require Import ZArith List Lia Bool.
 From RtcmModel Require Import Types BitIO Layout Crc Frame Message Top.
 From RtcmGen Require Import GenSignals GenLayouts.
-From RtcmProofs Require Import ListZ FrameProofs BuilderProofs SizeProofs BuildProofs BitProofs FieldProofs RoundTrip RoundTripFrame EncodeTotal.
+From RtcmProofs Require Import ListZ FrameProofs BuilderProofs SizeProofs BuildProofs BitProofs FieldProofs RoundTrip RoundTripFrame EncodeTotal MsmTotal EncodeTotalAll.
 From RtcmGen Require Import GenMessages.
 Import ListNotations.
 Open Scope Z_scope.
@@ -119,6 +125,76 @@ Proof.
   exists f. split; assumption.
 Qed.
 
+
+(** table obligation: every layout of the table is either plain or plain header fields followed by one special
+    fragment whose parameters are in order (MSM: signal table one-to-one with ids 1..32, every row field
+    meets the side conditions of C08) *)
+Theorem C09_layouts_classified : forallb (fun m => plain (snd m) || tail_ok sig_table (snd m)) messages = true.
+Proof. vm_cast_no_check (eq_refl true). Qed.
+
+(** a value the Rust types admit for a layout of the table *)
+Definition wt_msg (lay : frag) (v : val) : Prop :=
+  (plain lay = true /\ wt lay v) \/ (plain lay = false /\ wt_tail SAT_CAP_1059 SAT_CAP_1065 lay v).
+
+(** every layout: encoding a well-typed value never panics, at any position of any buffer *)
+Theorem C09_encode_no_panic : forall n lay v d o, In (n, lay) messages -> wt_msg lay v ->
+  bytes_ok d = true -> 0 <= o -> t_encode_frag lay (d, o) v <> Panic.
+Proof.
+  intros n lay v d o Hin Hw Hb Ho. destruct Hw as [[Hp Hw]|[Hp Hw]]; [exact (C09_encode_no_panic_plain n lay v d o Hin Hp Hw Hb Ho)|].
+  pose proof C09_layouts_classified as Hc. rewrite forallb_forall in Hc. specialize (Hc _ Hin). cbn [snd] in Hc. rewrite Hp in Hc. cbn [orb] in Hc.
+  exact (encode_no_panic_tail sig_table ssr_table_1059 ssr_table_1065 SAT_CAP_1059 SAT_CAP_1065 lay v d o Hc Hw Hb Ho).
+Qed.
+
+(** build_message never panics: for every message value (typed messages of the table with a well-typed body,
+    and the three kinds without a wire form), from any reachable builder *)
+Theorem C09_build_total : forall b m,
+  reach sig_table ssr_table_1059 ssr_table_1065 SAT_CAP_1059 SAT_CAP_1065 messages b ->
+  (forall n v, m = MTyped n v -> exists lay, lookup n messages = Some lay /\ wt_msg lay v) ->
+  snd (t_build b m) <> Panic.
+Proof.
+  intros b m Hr Hm.
+  assert (Hcase : (exists n v, m = MTyped n v) \/ (forall n v, m <> MTyped n v)).
+  { destruct m; try (right; intros n0 v0 X; discriminate X). left. eexists. eexists. reflexivity. }
+  destruct Hcase as [[n [v ->]]|Hnw]; [|rewrite (C09_no_wire_form b m Hnw); discriminate].
+  destruct (Hm n v eq_refl) as [lay [Hlk Hw]]. unfold t_build.
+  rewrite (history_independent sig_table ssr_table_1059 ssr_table_1065 SAT_CAP_1059 SAT_CAP_1065 messages b (MTyped n v) Hr).
+  unfold build_fresh, build. cbn [builder_new b_has_run b_data]. change (211 :: repeat 0 1028) with fresh_data.
+  pose proof (lookup_In messages n lay Hlk) as Hin.
+  pose proof (build_no_panic_gen sig_table ssr_table_1059 ssr_table_1065 SAT_CAP_1059 SAT_CAP_1065 messages
+                (proj1 caps_nonneg) (proj2 caps_nonneg) layouts_fit n v lay Hlk
+                (fun d o Hb Ho => C09_encode_no_panic n lay v d o Hin Hw Hb Ho)) as Hn.
+  destruct (build_on sig_table ssr_table_1059 ssr_table_1065 SAT_CAP_1059 SAT_CAP_1065 messages fresh_data (MTyped n v)) as [[fr d']|e|]; cbn [snd]; [discriminate|discriminate|contradiction].
+Qed.
+Check C09_build_total : forall b m,
+  reach sig_table ssr_table_1059 ssr_table_1065 SAT_CAP_1059 SAT_CAP_1065 messages b ->
+  (forall n v, m = MTyped n v -> exists lay, lookup n messages = Some lay /\ wt_msg lay v) ->
+  snd (t_build b m) <> Panic.
+
+(** non-vacuity of [wt_tail]: an MSM4 message whose signal rows name a satellite that is not listed, one
+    of them twice (refused with an error, not a panic), and the same with consistent rows (accepted) *)
+Definition msm4_hdr : list val := [VInt 1; VInt 2; VInt 0; VNone; VInt 0; VInt 0; VInt 0; VInt 0; VInt 0].
+Definition msm4_sat (s : Z) : val := VStruct [VInt s; VSome (VInt 70); VF64 0].
+Definition msm4_sig (s : Z) : val := VStruct [VInt s; VSig 1 67; VSome (VF64 0); VSome (VF64 0); VInt 3; VInt 0; VSome (VInt 40)].
+Example C09_wt_tail_example :
+  plain layout_1074 = false /\ tail_ok sig_table layout_1074 = true /\
+  is_ok (t_build_fresh (MTyped 1074 (VStruct (msm4_hdr ++ [VStruct [VList [msm4_sat 5]; VList [msm4_sig 5]]])))) = true /\
+  t_build_fresh (MTyped 1074 (VStruct (msm4_hdr ++ [VStruct [VList [msm4_sat 5]; VList [msm4_sig 6; msm4_sig 6]]]))) = Err SatelliteMismatch.
+Proof. repeat split; vm_compute; reflexivity. Qed.
+
+Ltac wtf := first [ solve [vm_compute; tauto] | solve [left; reflexivity] | solve [right; eexists; split; [reflexivity|vm_compute; tauto]] ].
+Example C09_wt_msg_example : wt_msg layout_1074 (VStruct (msm4_hdr ++ [VStruct [VList [msm4_sat 5]; VList [msm4_sig 6; msm4_sig 6]]])).
+Proof.
+  right. split; [vm_compute; reflexivity|].
+  eapply (wt_tail_intro _ _ layout_1074); [vm_compute; reflexivity| |].
+  - unfold msm4_hdr. repeat (constructor; [apply wt_fld; wtf|]). constructor.
+  - cbn [wt_special]. exists [msm4_sat 5], [msm4_sig 6; msm4_sig 6]. split; [reflexivity|]. split; [vm_compute; discriminate|]. split; [vm_compute; discriminate|]. split.
+    + intros r [<-|[]]. split; [|discriminate]. exists [VInt 5], [VSome (VInt 70); VF64 0]. split; [reflexivity|]. split; [reflexivity|].
+      repeat (constructor; [wtf|]). constructor.
+    + intros r Hr. assert (r = msm4_sig 6) as -> by (destruct Hr as [<-|[<-|[]]]; reflexivity). split; [|discriminate].
+      exists [VInt 6; VSig 1 67], [VSome (VF64 0); VSome (VF64 0); VInt 3; VInt 0; VSome (VInt 40)]. split; [reflexivity|]. split; [reflexivity|].
+      repeat (constructor; [wtf|]). constructor.
+Qed.
+
 (** non-vacuity of [wt]: a 1005 message (u16/u8/f64 fields) is well typed *)
 Example C09_wt_example : wt layout_1005 (VStruct [VInt 1; VInt 2; VInt 0; VInt 1; VInt 0; VInt 1; VF64 0; VInt 0; VInt 0; VF64 0; VInt 0; VF64 0]) /\ plain layout_1005 = true.
 Proof.
@@ -136,3 +212,6 @@ Print Assumptions C09_fits.
 Print Assumptions C09_encode_no_panic_plain.
 Print Assumptions C09_build_no_panic_plain.
 Print Assumptions C09_number_plain.
+Print Assumptions C09_layouts_classified.
+Print Assumptions C09_encode_no_panic.
+Print Assumptions C09_build_total.
